@@ -5,10 +5,11 @@ REGISTRY: dict = {}
 
 
 class LoopSpec:
-    def __init__(self, head, inv, decreases=None, stack="balanced"):
+    def __init__(self, head, inv, decreases=None, stack="balanced", ints=False):
         self.head = head  # fingerprint: ast.unparse of the loop header (For: 'for x in expr', While: 'while cond', effectful comprehension: the comprehension text)
         self.inv = inv  # function(s, j, pre) -> list of formulas ; j is None for while loops
         self.decreases = decreases
+        self.ints = ints  # the body may assert integer constraints on a pysmt Solver (its list I is havocked)
         self.stack = stack  # 'balanced' | 'grows' (body only pushes; nothing below is popped later)
 
 
@@ -28,7 +29,7 @@ class Contract:
     """
 
     def __init__(self, qual, params, returns=None, requires=None, ensures=None, raises=None, loops=None,
-                 modifies=(), trusted=False, properties=(), note="", decreases=None, locals=None, defaults=None, hints=None, fuel=3, axioms=(), abstractions=None, result_builder=None, shards=0):
+                 modifies=(), trusted=False, properties=(), note="", decreases=None, locals=None, defaults=None, hints=None, fuel=3, axioms=(), abstractions=None, result_builder=None, shards=0, inline=False, ghost_out=None, ghost_wit=None):
         self.qual = qual
         self.params = params
         self.returns = returns
@@ -55,6 +56,11 @@ class Contract:
         # result_builder(ex, bound_args) -> value: for factory functions whose result shares heap
         # objects with the arguments (identity cannot be said in `ensures`)
         self.result_builder = result_builder
+        # ghost outputs: {name: type}; ensures may refer to c.ghost[name].  Proving the contract uses the
+        # witnesses ghost_wit(view, result); callers get fresh values (an existential postcondition)
+        self.ghost_out = ghost_out or {}
+        self.ghost_wit = ghost_wit
+        self.inline = inline  # callers execute the (loop-free) real body instead of using the contract
         self.shards = shards  # >0: discharge the obligations in that many parallel processes
         REGISTRY[qual] = self
 
